@@ -9,6 +9,10 @@
 //!       digit (a character token), `_` (a space token), `{` `}`, `i:<name>` (`\input name `),
 //!       `e` (`\endinput `), `m:<letter>` (call of the macro), `\name` (an opaque control
 //!       sequence from `CS_NAMES`).
+//!       `f:a` is the file `a.tex`; `F:<literal>` is the file with exactly that name (`F:a`,
+//!       `F:a.tex.tex`, `F:a.`, `F:a.TEX`, `F:d/a`): a written name (`i:a`, `i:a.tex`, `i:a.`,
+//!       `i:d.d/a`; `o3:a.dat` in rd cases) is bound to a file by the Lean resolution
+//!       (`resolveCode` for M, `resolveTeX` for S), never by the harness.
 //!   `lim <n> <v>`  a chain of n nested `\input`s (v = 0: distinct files, 1: the innermost
 //!       file inputs itself for ever).
 //!   `rd f:a+: A { / B } C / ; t: X / ; ops: o0:a r0:a u:a ?0 c0`
@@ -202,7 +206,7 @@ fn run_vm(main: &str, files: &[(String, String)], term: &[String], script: bool)
         let mut vm = vm::VM::<HState>::new_with_built_in_commands(built_ins);
         let mut fs = tc::InMemoryFileSystem::new(vm.working_directory.as_ref().unwrap());
         for (name, text) in files {
-            fs.add_string_file(&format!("{name}.tex"), text);
+            fs.add_string_file(name, text);
         }
         vm.state.file_system = Rc::new(RefCell::new(fs));
         let mut t: tc::MockTerminalIn = Default::default();
@@ -267,7 +271,7 @@ fn parse_word(w: &str) -> W {
     } else if w == "%" {
         W::Comment
     } else if let Some(n) = w.strip_prefix("i:") {
-        assert!(!n.is_empty() && n.chars().all(|c| c.is_ascii_lowercase()), "bad file name {n}");
+        assert!(valid_written_name(n), "bad file name {n}");
         W::Input(n.to_string())
     } else if let Some(n) = w.strip_prefix("m:") {
         W::Call(n.chars().next().expect("macro letter"))
@@ -278,6 +282,82 @@ fn parse_word(w: &str) -> W {
         W::Chr(w.chars().next().unwrap())
     } else {
         panic!("bad word {w:?}")
+    }
+}
+
+/// Written file names: components of letters and dots, separated by `/`; no empty component,
+/// none starting with a dot (areas, `./`, `//`, hidden files are outside this harness).
+fn valid_written_name(n: &str) -> bool {
+    !n.is_empty()
+        && n.split('/').all(|c| !c.is_empty() && !c.starts_with('.') && c.chars().all(|x| x.is_ascii_alphabetic() || x == '.'))
+}
+
+/// The literal file name of a file section: `f:a` is `a.tex`, `F:x` (stored as `=x`) is `x`.
+fn literal_name(name: &str) -> String {
+    match name.strip_prefix('=') {
+        Some(l) => l.to_string(),
+        None => format!("{name}.tex"),
+    }
+}
+
+fn file_label(name: &str) -> String {
+    match name.strip_prefix('=') {
+        Some(l) => format!("F:{l}"),
+        None => format!("f:{name}"),
+    }
+}
+
+/// What the unrepaired code did (finding C19-c): `FileLocation::parse` splits at the last dot
+/// of the last component, `determine_full_path` pushed the path and called
+/// `PathBuf::set_extension`, which *replaces* an extension the path part still has. Used only
+/// to name the defect; computed with the real `std::path` functions.
+fn legacy_resolve(w: &str) -> String {
+    let mut ext = None;
+    for (i, c) in w.char_indices() {
+        if c == '.' {
+            ext = Some(i);
+        } else if c == '/' {
+            ext = None;
+        }
+    }
+    let (path, e) = match ext {
+        Some(j) => (&w[..j], Some(&w[j + 1..])),
+        None => (w, None),
+    };
+    let mut p = std::path::PathBuf::from("/wd");
+    p.push(path);
+    p.set_extension(e.unwrap_or("tex"));
+    p.strip_prefix("/wd").unwrap().to_str().unwrap().to_string()
+}
+
+/// Written name -> literal file name. Mode 0: the code (`resolveCode`), 1: TeX (`resolveTeX`),
+/// both computed by Lean; 2: the unrepaired code.
+#[derive(Default)]
+struct Resolver(HashMap<(u8, String), String>);
+impl Resolver {
+    fn resolve(&mut self, mode: u8, w: &str, drv: &mut Driver) -> String {
+        if let Some(r) = self.0.get(&(mode, w.to_string())) {
+            return r.clone();
+        }
+        let r = if mode == 2 {
+            legacy_resolve(w)
+        } else {
+            let codes: Vec<u32> = w.chars().map(|c| c as u32).collect();
+            let reply = drv.ask(&format!("rs {mode} {}", join(&codes)));
+            parse_i64s(&reply).into_iter().map(|c| c as u8 as char).collect()
+        };
+        self.0.insert((mode, w.to_string()), r.clone());
+        r
+    }
+    /// For every written name the index of the file it denotes, if that file exists.
+    fn bind(&mut self, mode: u8, written: &[String], files: &[SrcFile], drv: &mut Driver) -> Vec<Option<usize>> {
+        written
+            .iter()
+            .map(|w| {
+                let lit = self.resolve(mode, w, drv);
+                files.iter().position(|f| literal_name(&f.name) == lit)
+            })
+            .collect()
     }
 }
 
@@ -471,6 +551,21 @@ fn split_lines(content: &str) -> Vec<Vec<W>> {
     lines
 }
 
+fn parse_file_section(label: &str, content: &str) -> Option<SrcFile> {
+    let (l, lit) = if let Some(l) = label.strip_prefix("f:") {
+        (l, false)
+    } else if let Some(l) = label.strip_prefix("F:") {
+        (l, true)
+    } else {
+        return None;
+    };
+    let nl = !l.ends_with('-');
+    let l = if l.ends_with(['+', '-']) { &l[..l.len() - 1] } else { l };
+    assert!(valid_written_name(l), "bad file name {l}");
+    let name = if lit { format!("={l}") } else { l.to_string() };
+    Some(SrcFile { name, nl, lines: split_lines(content) }.canon())
+}
+
 fn split_label(sec: &str) -> (&str, &str) {
     // label ends at the first ": " or trailing ":"
     match sec.find(": ") {
@@ -500,10 +595,8 @@ impl InCase {
                     b.remove(0);
                 }
                 macros.push((l.chars().next().unwrap(), b));
-            } else if let Some(l) = label.strip_prefix("f:") {
-                let nl = !l.ends_with('-');
-                let name = l.trim_end_matches(['+', '-']).to_string();
-                files.push(SrcFile { name, nl, lines: split_lines(content) }.canon());
+            } else if let Some(f) = parse_file_section(label, content) {
+                files.push(f);
             } else {
                 panic!("bad section label {label:?}");
             }
@@ -521,12 +614,12 @@ impl InCase {
             parts.push(s);
         }
         for f in &self.files {
-            parts.push(f.show(&format!("f:{}", f.name)));
+            parts.push(f.show(&file_label(&f.name)));
         }
         format!("in {}", parts.join(" ; "))
     }
     /// Static nesting depth of `\input` below `f` (capped; a cycle gives the cap).
-    fn depth_of(&self, f: &SrcFile, seen: usize) -> usize {
+    fn depth_of(&self, f: &SrcFile, seen: usize, written: &[String], bind: &[Option<usize>]) -> usize {
         if seen >= 7 {
             return 0;
         }
@@ -538,8 +631,8 @@ impl InCase {
                 _ => vec![],
             };
             for n in names {
-                if let Some(g) = self.files.iter().find(|g| &g.name == n) {
-                    d = d.max(1 + self.depth_of(g, seen + 1));
+                if let Some(Some(k)) = written.iter().position(|x| x == n).map(|k| bind[k]) {
+                    d = d.max(1 + self.depth_of(&self.files[k], seen + 1, written, bind));
                 }
             }
         }
@@ -573,18 +666,34 @@ impl InCase {
         }
     }
     /// The driver request.
-    fn request(&self) -> String {
+    /// Every written name that occurs anywhere, in order of first occurrence: its index is the
+    /// model's file id.
+    fn written_names(&self) -> Vec<String> {
         let mut names = Names(vec![]);
-        for f in &self.files {
-            names.id(&f.name);
+        let bodies = self.macros.iter().map(|(_, b)| b);
+        for l in self.main.lines.iter().chain(bodies).chain(self.files.iter().flat_map(|f| f.lines.iter())) {
+            for w in l {
+                if let W::Input(n) = w {
+                    names.id(n);
+                }
+            }
         }
+        names.0
+    }
+    /// The driver request: the program and the file system *as bound* by `bind` (written-name
+    /// id -> content of the file it denotes).
+    fn request(&self, written: &[String], bind: &[Option<usize>]) -> String {
+        let mut names = Names(written.to_vec());
         let mut v = vec![99];
         self.enc_file(&self.main, &mut names, &mut v);
-        v.push(self.files.len() as i64);
-        for f in &self.files {
-            v.push(names.id(&f.name));
-            self.enc_file(f, &mut names, &mut v);
+        v.push(bind.iter().flatten().count() as i64);
+        for (id, b) in bind.iter().enumerate() {
+            if let Some(k) = b {
+                v.push(id as i64);
+                self.enc_file(&self.files[*k], &mut names, &mut v);
+            }
         }
+        assert_eq!(names.0.len(), written.len());
         format!("in {}", join(&v))
     }
     /// Main text with the macro definitions in front (each on a line ending in `%`: no token).
@@ -597,7 +706,7 @@ impl InCase {
         s
     }
     fn file_texts(&self) -> Vec<(String, String)> {
-        self.files.iter().map(|f| (f.name.clone(), f.text())).collect()
+        self.files.iter().map(|f| (literal_name(&f.name), f.text())).collect()
     }
 }
 
@@ -690,6 +799,7 @@ fn parse_rop(w: &str) -> ROp {
     let num = |s: &str| -> i64 { s.parse().unwrap_or_else(|_| panic!("bad stream number {s:?}")) };
     if let Some(r) = w.strip_prefix('o') {
         let (n, f) = r.split_once(':').expect("o<n>:<file>");
+        assert!(valid_written_name(f), "bad file name {f}");
         ROp::Open(num(n), f.to_string())
     } else if let Some(r) = w.strip_prefix('c') {
         ROp::Close(num(r))
@@ -724,10 +834,8 @@ impl RdCase {
                 continue;
             }
             let (label, content) = split_label(sec);
-            if let Some(l) = label.strip_prefix("f:") {
-                let nl = !l.ends_with('-');
-                let name = l.trim_end_matches(['+', '-']).to_string();
-                c.files.push(SrcFile { name, nl, lines: split_lines(content) }.canon());
+            if let Some(f) = parse_file_section(label, content) {
+                c.files.push(f);
             } else if label == "t" {
                 c.term = split_lines(content).iter().map(|l| normalize(l, false)).collect();
             } else if label == "ops" {
@@ -745,7 +853,7 @@ impl RdCase {
         c
     }
     fn show(&self) -> String {
-        let mut parts: Vec<String> = self.files.iter().map(|f| f.show(&format!("f:{}", f.name))).collect();
+        let mut parts: Vec<String> = self.files.iter().map(|f| f.show(&file_label(&f.name))).collect();
         let mut t = "t:".to_string();
         for l in &self.term {
             for w in l {
@@ -772,14 +880,26 @@ impl RdCase {
         out.push(v.len() as i64);
         out.extend(v);
     }
-    fn request(&self) -> String {
+    fn written_names(&self) -> Vec<String> {
         let mut names = Names(vec![]);
-        let mut v = vec![self.files.len() as i64];
-        for f in &self.files {
-            v.push(names.id(&f.name));
-            v.push(f.lines.len() as i64);
-            for l in &f.lines {
-                Self::enc_tline(l, false, &mut v);
+        for o in &self.ops {
+            if let ROp::Open(_, f) = o {
+                names.id(f);
+            }
+        }
+        names.0
+    }
+    fn request(&self, written: &[String], bind: &[Option<usize>]) -> String {
+        let mut names = Names(written.to_vec());
+        let mut v = vec![bind.iter().flatten().count() as i64];
+        for (id, b) in bind.iter().enumerate() {
+            if let Some(k) = b {
+                let f = &self.files[*k];
+                v.push(id as i64);
+                v.push(f.lines.len() as i64);
+                for l in &f.lines {
+                    Self::enc_tline(l, false, &mut v);
+                }
             }
         }
         v.push(self.term.len() as i64);
@@ -799,7 +919,7 @@ impl RdCase {
         format!("rd {}", join(&v))
     }
     fn file_texts(&self) -> Vec<(String, String)> {
-        self.files.iter().map(|f| (f.name.clone(), f.text())).collect()
+        self.files.iter().map(|f| (literal_name(&f.name), f.text())).collect()
     }
     fn main_text(&self) -> String {
         let mut s = String::new();
@@ -863,7 +983,12 @@ impl<'a> TreeGen<'a> {
         if n >= 26 {
             s.push((b'a' + (n / 26 % 26) as u8) as char);
         }
-        s
+        // directory-qualified names, also with a dot in the directory
+        match self.r.below(16) {
+            0 | 1 => format!("s/{s}"),
+            2 => format!("d.d/{s}"),
+            _ => s,
+        }
     }
     fn chr(&mut self) -> W {
         W::Chr((b'A' + self.r.below(26) as u8) as char)
@@ -1038,8 +1163,65 @@ impl<'a> TreeGen<'a> {
         if !closing.is_empty() && !main.lines.iter().flatten().any(|w| *w == W::End || matches!(w, W::Call(c) if g.macros.iter().any(|(m, b)| m == c && b.contains(&W::End)))) {
             main.lines.push(closing);
         }
-        let c = InCase { main, macros: g.macros, files: g.files };
+        let pure = std::mem::take(&mut g.pure_files);
+        let mut c = InCase { main, macros: std::mem::take(&mut g.macros), files: std::mem::take(&mut g.files) };
+        if g.r.chance(1, 2) {
+            let mut words: Vec<&mut W> = c.main.lines.iter_mut().flatten().collect();
+            for (_, b) in c.macros.iter_mut() {
+                words.extend(b.iter_mut());
+            }
+            add_name_variants(&mut c.files, words, &pure, false, g.r);
+        }
         InCase::parse(c.show().strip_prefix("in ").unwrap())
+    }
+}
+
+const NAME_VARIANTS: &[&str] = &["", ".tex", ".tex.tex", ".TEX", ".", ".dat", ".tex.dat"];
+
+/// The file-name ingredient: next to a generated file `x.tex` put files `x`, `x.tex.tex`,
+/// `x.TEX`, `x.`, `x.dat`, `x.tex.dat` with other contents, write some names with the
+/// (equivalent) explicit `.tex`, and let inputs of files without structure name any variant.
+fn add_name_variants<'a>(files: &'a mut Vec<SrcFile>, mut words: Vec<&'a mut W>, free: &[String], all_free: bool, r: &mut Rng) {
+    let stems: Vec<String> = files.iter().filter(|f| !f.name.starts_with('=')).map(|f| f.name.clone()).collect();
+    let mut k = 0u8;
+    for st in &stems {
+        if r.chance(2, 3) {
+            for v in NAME_VARIANTS {
+                if *v != ".tex" && r.chance(2, 5) {
+                    k = (k + 1) % 10;
+                    let mut lines = vec![vec![W::Chr((b'0' + k) as char), W::Chr((b'A' + r.below(26) as u8) as char)]];
+                    if r.chance(1, 3) {
+                        lines.push(vec![W::Chr((b'0' + k) as char)]);
+                    }
+                    files.push(SrcFile { name: format!("={st}{v}"), nl: r.chance(2, 3), lines });
+                }
+            }
+        }
+    }
+    let existing: Vec<String> = files.iter().map(|f| literal_name(&f.name)).collect();
+    // the words of the files themselves
+    let mut inner: Vec<&mut W> = files.iter_mut().flat_map(|f| f.lines.iter_mut().flatten()).collect();
+    words.append(&mut inner);
+    for w in words {
+        if let W::Input(n) = w {
+            if !stems.contains(n) {
+                continue;
+            }
+            if (all_free || free.contains(n)) && r.chance(1, 2) {
+                // mostly a variant that exists (under TeX's rule or literally)
+                let mut v = *r.pick(NAME_VARIANTS);
+                for _ in 0..3 {
+                    let lit = format!("{n}{v}");
+                    if existing.contains(&lit) || existing.contains(&format!("{lit}.tex")) {
+                        break;
+                    }
+                    v = *r.pick(NAME_VARIANTS);
+                }
+                *n = format!("{n}{v}");
+            } else if r.chance(1, 4) {
+                *n = format!("{n}.tex");
+            }
+        }
     }
 }
 
@@ -1147,6 +1329,17 @@ fn gen_rd(r: &mut Rng, wide: bool) -> RdCase {
             }
         }
     }
+    let mut files = files;
+    if r.chance(1, 2) {
+        // \openin with every variant of the names (all rd files are plain)
+        let mut names: Vec<W> = ops.iter().map(|o| if let ROp::Open(_, f) = o { W::Input(f.clone()) } else { W::Sp }).collect();
+        add_name_variants(&mut files, names.iter_mut().collect(), &[], true, r);
+        for (o, w) in ops.iter_mut().zip(names) {
+            if let (ROp::Open(_, f), W::Input(n)) = (o, w) {
+                *f = n;
+            }
+        }
+    }
     RdCase { files, term, ops }
 }
 
@@ -1154,9 +1347,13 @@ fn gen_rd(r: &mut Rng, wide: bool) -> RdCase {
 // The property
 // ------------------------------------------------------------------------------------------
 
-struct C19;
+#[derive(Default)]
+struct C19 {
+    res: Resolver,
+}
 
 const SIG_ENDINPUT: &str = "in: \\endinput drops the rest of its line";
+const SIG_EXT: &str = "name: an extension in the path part is replaced instead of kept (PathBuf::set_extension)";
 const SIG_EOF: &str = "rd: stream closed after its last real line (TeX: after the appended empty line)";
 
 impl C19 {
@@ -1177,16 +1374,47 @@ impl C19 {
         let mut out = CaseOutcome::default();
         let n_inputs = c.main.lines.iter().chain(c.files.iter().flat_map(|f| f.lines.iter())).flatten().filter(|w| matches!(w, W::Input(_) | W::End | W::Call(_))).count();
         out.nontrivial = n_inputs > 0;
-        let reply = drv.ask(&c.request());
-        let parts: Vec<&str> = reply.split('|').map(|s| s.trim()).collect();
-        if parts.len() != 5 {
-            panic!("driver reply malformed: {reply} (request {})", c.request());
-        }
-        let (m_status, m_toks) = parse_status_toks(parts[0]);
+        // Which file each written name denotes: by the code (M), by TeX (S), by the unrepaired
+        // code (only to name finding C19-c).
+        let written = c.written_names();
+        let b_code = self.res.bind(0, &written, &c.files, drv);
+        let b_tex = self.res.bind(1, &written, &c.files, drv);
+        let b_leg = self.res.bind(2, &written, &c.files, drv);
+        let ask5 = |drv: &mut Driver, b: &[Option<usize>]| -> Vec<String> {
+            let req = c.request(&written, b);
+            let reply = drv.ask(&req);
+            let parts: Vec<String> = reply.split('|').map(|s| s.trim().to_string()).collect();
+            if parts.len() != 5 {
+                panic!("driver reply malformed: {reply} (request {req})");
+            }
+            parts
+        };
+        let parts_code = ask5(drv, &b_code);
+        let parts = if b_tex == b_code { parts_code.clone() } else { ask5(drv, &b_tex) };
+        let parts_leg = if b_leg != b_code || b_leg != b_tex { Some(ask5(drv, &b_leg)) } else { None };
+        let (m_status, m_toks) = parse_status_toks(&parts_code[0]);
         let wf = parts[1] == "1";
-        let s_lex = parse_i64s(parts[2]);
-        let s_tex = parse_i64s(parts[3]);
+        let s_lex = parse_i64s(&parts[2]);
+        let s_tex = parse_i64s(&parts[3]);
         let end_last = parts[4] == "1";
+        if b_tex != b_code {
+            out.fail(Kind::ModelVsSpec, "in", "name: the code's resolution differs from TeX's", format!("written: {written:?}
+code: {b_code:?}
+TeX: {b_tex:?}"));
+        }
+        for w in &written {
+            let dots = w.rsplit('/').next().unwrap().matches('.').count();
+            out.tag(format!("name:{}{}{}", if w.contains('/') { "dir/" } else { "" }, match dots { 0 => "bare", 1 => "one-dot", _ => "several-dots" }, if w.ends_with('.') { "-trailing" } else { "" }));
+        }
+        {
+            let lits: Vec<String> = c.files.iter().map(|f| literal_name(&f.name)).collect();
+            if lits.iter().any(|l| lits.iter().any(|m| *m == format!("{l}.tex"))) {
+                out.tag("name:bare-file-next-to-tex-file");
+            }
+            if parts_leg.is_some() {
+                out.tag("name:legacy-resolution-differs");
+            }
+        }
         let main_text = c.main_text();
         let files = c.file_texts();
 
@@ -1197,7 +1425,7 @@ impl C19 {
         if !end_last {
             out.tag("in:endinput-mid-line");
         }
-        out.tag(format!("in:depth={}", c.depth_of(&c.main, 0).min(7)));
+        out.tag(format!("in:depth={}", c.depth_of(&c.main, 0, &written, &b_tex).min(7)));
         for f in c.files.iter().chain(std::iter::once(&c.main)) {
             let net = |open: &dyn Fn(&W) -> bool, close: &dyn Fn(&W) -> bool| -> i64 {
                 f.lines.iter().flatten().map(|w| open(w) as i64 - close(w) as i64).sum()
@@ -1251,13 +1479,31 @@ impl C19 {
         let mut cache = HashMap::new();
         let ctx = |what: &str, exp: &dyn std::fmt::Debug| format!("{what}\nmain: {main_text:?}\nfiles: {files:?}\nimpl: {i:?}\nexpected: {exp:?}");
 
+        // Does the run equal what the model / the inlining gives when names are bound as the
+        // unrepaired code bound them? Then the difference is finding C19-c.
+        let mut legacy_explains = |i: &RunOut, cache: &mut HashMap<Vec<i64>, Result<RunOut, String>>| -> bool {
+            let Some(pl) = &parts_leg else { return false };
+            let (st, toks) = parse_status_toks(&pl[0]);
+            let by_model = match st {
+                0 => Self::run_stream(cache, &toks).ok().as_ref() == Some(i),
+                1 => i.err.as_deref() == Some("notfound"),
+                2 => i.err.as_deref() == Some("toodeep"),
+                _ => false,
+            };
+            by_model
+                || Self::run_stream(cache, &parse_i64s(&pl[3])).ok().as_ref() == Some(i)
+                || Self::run_stream(cache, &parse_i64s(&pl[2])).ok().as_ref() == Some(i)
+        };
+        let sig_m = |default: &str, explained: bool| -> String { if explained { SIG_EXT.to_string() } else { default.to_string() } };
+
         // ---- I vs M
         match m_status {
             3 => out.fail(Kind::ImplVsModel, "in", "in: model out of fuel", ctx("model ran out of fuel", &"")),
             0 => match Self::run_stream(&mut cache, &m_toks) {
                 Ok(e) => {
                     if e != i {
-                        out.fail(Kind::ImplVsModel, "in", "in: output differs from the source-stack model", ctx("model token stream run on the VM", &e));
+                        let ex = legacy_explains(&i, &mut cache);
+                        out.fail(Kind::ImplVsModel, "in", sig_m("in: output differs from the source-stack model", ex), ctx("model token stream run on the VM", &e));
                     }
                 }
                 Err(p) => out.fail(Kind::ImplPanic, "in", format!("panic {}", strip_msg(&p)), format!("VM panicked on the model's stream: {p}")),
@@ -1265,10 +1511,12 @@ impl C19 {
             s => {
                 let cls = if s == 1 { "notfound" } else { "toodeep" };
                 if i.err.as_deref() != Some(cls) {
-                    out.fail(Kind::ImplVsModel, "in", format!("in: model says {cls}"), ctx("model error class", &cls));
+                    let ex = legacy_explains(&i, &mut cache);
+                    out.fail(Kind::ImplVsModel, "in", sig_m(&format!("in: model says {cls}"), ex), ctx("model error class", &cls));
                 } else if let Some(d) = direct_output(&m_toks) {
                     if d != i.out {
-                        out.fail(Kind::ImplVsModel, "in", "in: output before the error differs from the model", ctx("model output before error", &d));
+                        let ex = legacy_explains(&i, &mut cache);
+                        out.fail(Kind::ImplVsModel, "in", sig_m("in: output before the error differs from the model", ex), ctx("model output before error", &d));
                     }
                 }
             }
@@ -1288,7 +1536,13 @@ impl C19 {
                 Ok(e) => {
                     if e != i {
                         let lex = Self::run_stream(&mut cache, &s_lex);
-                        let sig = if lex.as_ref().ok() == Some(&i) && !end_last { SIG_ENDINPUT } else { "in: output differs from the inlined program" };
+                        let sig = if lex.as_ref().ok() == Some(&i) && !end_last {
+                            SIG_ENDINPUT
+                        } else if legacy_explains(&i, &mut cache) {
+                            SIG_EXT
+                        } else {
+                            "in: output differs from the inlined program"
+                        };
                         out.fail(Kind::ImplVsSpec, "in", sig, ctx(&format!("inlined program (TeX): {:?}", render_tokens(&s_tex)), &e));
                     }
                 }
@@ -1302,7 +1556,19 @@ impl C19 {
                     out.tag("in:script-stream");
                     if a != b {
                         let l = run_vm(&render_tokens(&s_lex), &[], &[], true);
-                        let sig = if l.as_ref().ok() == Some(&a) && !end_last { SIG_ENDINPUT } else { "in: script output differs from the inlined program" };
+                        let leg = parts_leg.as_ref().map(|pl| {
+                            let (st, _) = parse_status_toks(&pl[0]);
+                            (st == 1 && a.err.as_deref() == Some("notfound"))
+                                || (st == 2 && a.err.as_deref() == Some("toodeep"))
+                                || [2usize, 3].iter().any(|k| run_vm(&render_tokens(&parse_i64s(&pl[*k])), &[], &[], true).ok().as_ref() == Some(&a))
+                        });
+                        let sig = if l.as_ref().ok() == Some(&a) && !end_last {
+                            SIG_ENDINPUT
+                        } else if leg == Some(true) {
+                            SIG_EXT
+                        } else {
+                            "in: script output differs from the inlined program"
+                        };
                         out.fail(Kind::ImplVsSpec, "in_script", sig, format!("main: {main_text:?}\nfiles: {files:?}\nwith files: {a:?}\ninlined: {b:?}"));
                     }
                 }
@@ -1323,13 +1589,42 @@ impl C19 {
     fn run_rd(&mut self, c: &RdCase, drv: &mut Driver) -> CaseOutcome {
         let mut out = CaseOutcome::default();
         out.nontrivial = c.ops.iter().any(|o| matches!(o, ROp::Read(..)));
-        let reply = drv.ask(&c.request());
-        let parts: Vec<&str> = reply.split('|').map(|s| s.trim()).collect();
-        if parts.len() != 2 {
-            panic!("driver reply malformed: {reply} (request {})", c.request());
+        let written = c.written_names();
+        let b_code = self.res.bind(0, &written, &c.files, drv);
+        let b_tex = self.res.bind(1, &written, &c.files, drv);
+        let b_leg = self.res.bind(2, &written, &c.files, drv);
+        let ask2 = |drv: &mut Driver, b: &[Option<usize>]| -> Vec<String> {
+            let req = c.request(&written, b);
+            let reply = drv.ask(&req);
+            let parts: Vec<String> = reply.split('|').map(|s| s.trim().to_string()).collect();
+            if parts.len() != 2 {
+                panic!("driver reply malformed: {reply} (request {req})");
+            }
+            parts
+        };
+        let parts_code = ask2(drv, &b_code);
+        let parts = if b_tex == b_code { parts_code.clone() } else { ask2(drv, &b_tex) };
+        let parts_leg = if b_leg != b_code || b_leg != b_tex { Some(ask2(drv, &b_leg)) } else { None };
+        let (m_status, m_toks) = parse_status_toks(&parts_code[0]);
+        let (s_status, s_toks) = parse_status_toks(&parts[1]);
+        if b_tex != b_code {
+            out.fail(Kind::ModelVsSpec, "rd", "name: the code's resolution differs from TeX's", format!("written: {written:?}
+code: {b_code:?}
+TeX: {b_tex:?}"));
         }
-        let (m_status, m_toks) = parse_status_toks(parts[0]);
-        let (s_status, s_toks) = parse_status_toks(parts[1]);
+        for w in &written {
+            let dots = w.rsplit('/').next().unwrap().matches('.').count();
+            out.tag(format!("name:{}{}{}", if w.contains('/') { "dir/" } else { "" }, match dots { 0 => "bare", 1 => "one-dot", _ => "several-dots" }, if w.ends_with('.') { "-trailing" } else { "" }));
+        }
+        {
+            let lits: Vec<String> = c.files.iter().map(|f| literal_name(&f.name)).collect();
+            if lits.iter().any(|l| lits.iter().any(|m| *m == format!("{l}.tex"))) {
+                out.tag("name:bare-file-next-to-tex-file");
+            }
+            if parts_leg.is_some() {
+                out.tag("name:legacy-resolution-differs");
+            }
+        }
         let main_text = c.main_text();
         let files = c.file_texts();
         let term: Vec<String> = c.term.iter().map(|l| render_words(l, false)).collect();
@@ -1377,8 +1672,16 @@ impl C19 {
         let m = RunOut { out: show(&m_toks), err: status_class_rd(m_status) };
         let s = RunOut { out: show(&s_toks), err: status_class_rd(s_status) };
         let ctx = |what: &str| format!("{what}\nmain: {main_text:?}\nfiles: {files:?}\nterminal: {term:?}\nimpl:  {i:?}\nmodel: {m:?}\nTeX:   {s:?}");
+        // finding C19-c: the run is what model / TeX give with names bound as the unrepaired code did
+        let legacy_explains = parts_leg.as_ref().map(|pl| {
+            pl.iter().any(|part| {
+                let (st, toks) = parse_status_toks(part);
+                RunOut { out: show(&toks), err: status_class_rd(st) } == i
+            })
+        }) == Some(true);
         if i != m {
-            out.fail(Kind::ImplVsModel, "rd", "rd: output differs from the stream model", ctx("I vs M"));
+            let sig = if legacy_explains { SIG_EXT } else { "rd: output differs from the stream model" };
+            out.fail(Kind::ImplVsModel, "rd", sig, ctx("I vs M"));
         }
         if m != s {
             out.tag("rd:model-differs-from-tex");
@@ -1387,7 +1690,13 @@ impl C19 {
             // The model deviates from TeX in exactly one documented way (a stream is closed as
             // soon as its last real line has been read: `readFile` vs `texReadFile`); a
             // difference that the model reproduces is that defect, anything else is new.
-            let sig = if i == m { SIG_EOF.to_string() } else { "rd: output differs from TeX".to_string() };
+            let sig = if i == m {
+                SIG_EOF.to_string()
+            } else if legacy_explains {
+                SIG_EXT.to_string()
+            } else {
+                "rd: output differs from TeX".to_string()
+            };
             out.fail(Kind::ImplVsSpec, "rd", sig, ctx("I vs S (TeX §485-486)"));
         }
         out
@@ -1457,6 +1766,13 @@ impl Property for C19 {
             "rd t: ; ops: ?0 o0:zz ?0 o16:zz".into(),
             "rd f:a+: A / ; t: ; ops: o0:a ?0 o0:zz ?0 o0:a c0 ?0 ?16".into(),
         ];
+        // which file: the seeded change "the bare name is tried first" and finding C19-c
+        v.push("in main+: A i:a B / ; f:a+: X / ; F:a+: Y /".into());
+        v.push("in main+: A i:nested/part B / ; f:nested/part+: X / ; F:nested/part+: Y /".into());
+        v.push("in main+: A i:a.tex.tex B / ; f:a+: X / ; F:a.tex.tex+: Y /".into());
+        v.push("in main+: A i:a. B / ; F:a+: X / ; F:a.+: Y /".into());
+        v.push("rd f:a+: X / ; F:a+: Y / Z / ; t: ; ops: o0:a r0:a u:a ?0".into());
+        v.push("rd f:a+: X / W / ; F:a.tex.tex+: Y / ; t: ; ops: o0:a.tex.tex r0:a u:a ?0".into());
         for n in [2, 5, 50, 97, 98, 99, 100, 101, 102] {
             v.push(format!("lim {n} 0"));
         }
@@ -1524,6 +1840,37 @@ impl Property for C19 {
                         ops.extend(["r3:a".to_string(), "u:a".into(), "?3".into()]);
                     }
                     v.push(format!("rd {sh} ; {term} ; ops: {}", ops.join(" ")));
+                }
+            }
+        }
+        // ---- exhaustive: which file a written name denotes
+        {
+            let disk: &[&str] = &[
+                "a", "a.tex", "a.tex.tex", "a.TEX", "a.", "a.dat", "a.tex.dat", "a.dat.tex", "d/a", "d/a.tex", "d/a.tex.tex", "d.d/a", "d.d/a.tex",
+                "d.d/a.b", "d.d/a.b.tex", "d.tex", "a.b.c", "a.c", "a.b.c.tex",
+            ];
+            let written: &[&str] = &["a", "a.tex", "a.tex.tex", "a.TEX", "a.", "a.dat", "a.tex.dat", "d/a", "d/a.tex", "d.d/a", "d.d/a.b", "d.d/a.", "a.b.c", "a.b."];
+            for w in written {
+                // generation only: the file TeX means (the verdict is Lean's)
+                let target = if w.rsplit('/').next().unwrap().contains('.') { w.to_string() } else { format!("{w}.tex") };
+                for variant in 0..3 {
+                    let mut secs = vec![];
+                    let mut lines_of = vec![];
+                    for (k, l) in disk.iter().enumerate() {
+                        let keep = match variant {
+                            0 => true,
+                            1 => *l != target,
+                            _ => *l == target,
+                        };
+                        if keep {
+                            let c = (b'A' + k as u8) as char;
+                            secs.push(format!("F:{l}+: {c} /"));
+                            lines_of.push(format!("F:{l}+: {c} / {c} {c} /"));
+                        }
+                    }
+                    v.push(format!("in main+: Y i:{w} Z / ; {}", secs.join(" ; ")));
+                    v.push(format!("in main+: m:a / ; m:a: Y i:{w} Z ; {}", secs.join(" ; ")));
+                    v.push(format!("rd {} ; t: ; ops: ?2 o2:{w} ?2 r2:a u:a ?2 r2:b u:b ?2", lines_of.join(" ; ")));
                 }
             }
         }
@@ -1609,9 +1956,18 @@ impl Property for C19 {
                 let u = used_files(&c);
                 let calls: Vec<char> = c.main.lines.iter().chain(c.files.iter().flat_map(|f| f.lines.iter())).flatten().filter_map(|w| if let W::Call(m) = w { Some(*m) } else { None }).collect();
                 let mut d = c.clone();
-                d.files.retain(|f| u.contains(&f.name));
+                d.files.retain(|f| {
+                    let lit = literal_name(&f.name);
+                    u.iter().any(|w| lit == *w || lit == format!("{w}.tex") || lit == legacy_resolve(w))
+                });
                 d.macros.retain(|(m, _)| calls.contains(m));
                 if d.files.len() < c.files.len() || d.macros.len() < c.macros.len() {
+                    out.push(d.show());
+                }
+                // drop one file (decoys next to the file that is read)
+                for k in 0..c.files.len() {
+                    let mut d = c.clone();
+                    d.files.remove(k);
                     out.push(d.show());
                 }
                 // drop a line / a word anywhere
@@ -1695,11 +2051,11 @@ impl Property for C19 {
             _ => {}
         }
         // shrinking must never produce an unparsable case
-        out.retain(|c| caught(|| { let (cmd, rest) = c.split_once(' ').unwrap_or((c, "")); match cmd { "in" => { let x = InCase::parse(rest); let _ = x.request(); } "rd" => { let _ = RdCase::parse(rest).request(); } _ => {} } }).is_ok());
+        out.retain(|c| caught(|| { let (cmd, rest) = c.split_once(' ').unwrap_or((c, "")); match cmd { "in" => { let x = InCase::parse(rest); let w = x.written_names(); let _ = x.request(&w, &vec![None; w.len()]); for l in x.main.lines.iter().chain(x.files.iter().flat_map(|f| f.lines.iter())).flatten() { if let W::Call(m) = l { let _ = x.body_of(*m); } } } "rd" => { let x = RdCase::parse(rest); let w = x.written_names(); let _ = x.request(&w, &vec![None; w.len()]); } _ => {} } }).is_ok());
         out
     }
 }
 
 fn main() {
-    run(C19);
+    run(C19::default());
 }
